@@ -63,12 +63,19 @@ def main(pid="C11", prop="mirror"):
     c.cov["strict_mirror_holds_in_model"] = strict["ok"]      # expected False: the model itself exhibits the listed deviation
     gn, gv, gm = (["fn1", "fn2"], ["V1", "V2"], 2) if c.thorough else (["fn1", "fn2"], ["V1"], 2)
     pairs, nstates = gen_pairs(c, gn, gv, gm, declless=(prop == "setdiff"))
+    if not c.thorough:
+        # second stratum of the quick tier: ONE name under TWO versions (name@V1 beside name@@V2 ...), which the universe above cannot express
+        pairs2, n2 = gen_pairs(c, ["fn1"], ["V1", "V2"], 2, declless=(prop == "setdiff"))
+        seen = {vf.sha(repr(p)) for p in pairs}
+        pairs += [p for p in pairs2 if vf.sha(repr(p)) not in seen]
+        nstates += n2
+        c.cov["pairs_one_name_two_versions"] = len(pairs2)
     events = run_pairs(c, pairs, prop)
     c.cov["evaluations"] = len(events)
     c.cov["exhaustive"] = True
     c.cov["distinct_nontrivial"] = sum(1 for e in events if e["ab"]["exit"] != 0 or e["ba"]["exit"] != 0)
     c.cov["rule"] = ("every pair of well-formed corpora with <= %d symbols over names %s, versions {none, %s} x {default, non-default} x {with, without declaration}%s "
-                     "(enumerated by TLC: %d model states), rendered as ABIXML and compared in both directions by abidiff; non-trivial = pairs with a non-zero exit in some direction"
+                     "(quick tier: plus every such pair over the single name fn1 with versions {none, V1, V2}; enumerated by TLC: %d model states), rendered as ABIXML and compared in both directions by abidiff; non-trivial = pairs with a non-zero exit in some direction"
                      % (gm, gn, ",".join(gv), " restricted to declaration-less corpora" if prop == "setdiff" else "", nstates))
     for e in events[1:4]:
         c.sample(e)
